@@ -238,6 +238,8 @@ def c05_oracle(case, field="B"):
         got = run_real(srcs, sens, case, field)
     except MagpylibBadUserInput:
         return None
+    except Exception as e:   # pylint: disable=broad-except
+        return ("raises", f"valid source list raised {type(e).__name__}: {e}")
     plain = dict(case, sumup=False, agg=0)
     entries = level2.resolve(case["sources"])
     sensd = level2.resolve(case["sensors"])
